@@ -136,6 +136,29 @@ def op_phase(a, dim, p0, p1, out=1):
     return {"op": "proc", "f": "phase", "obj": a["id"], "out": out, "kw": kw}
 
 
+def op_autophase(a, dim, out=1):
+    """autophase without a reference slice: the entropy minimiser (dnplab's own `_autophase`, external numerics) is run HERE
+    per trace; its angles go through the normalisation of `phase` (degrees, sign * (|p| mod 360)) into the factor table"""
+    from common import parse_g
+    from dnplab.processing.phase import _autophase
+    k = a["dims"].index(dim)
+    n = a["shape"][k]
+    vals = np.array([parse_g(v) for v in a["values"]]).reshape(a["shape"])
+    cols = np.moveaxis(vals, k, 0).reshape(n, -1)
+    coord = np.array(coord_of(a, dim), dtype=float)
+    cis = []
+    import warnings as _w
+    for j in range(cols.shape[1]):
+        with _w.catch_warnings():
+            _w.simplefilter("ignore")
+            ph0, ph1 = _autophase(cols[:, j].copy(), coord, dim, 1, 5e-3)
+        p0, p1 = ph0 / math.pi * 180.0, ph1 / math.pi * 180.0
+        wrap = lambda p: math.copysign(math.fmod(abs(p), 360.0), p) if p != 0 else 0.0
+        r0, r1 = math.radians(wrap(p0)), math.radians(wrap(p1))
+        cis.append([gstr(complex(np.exp(1j * (r0 + r1 * i / n)))) for i in range(n)])
+    return {"op": "proc", "f": "autophase", "obj": a["id"], "out": out, "kw": {"dim": dim, "cis": cis}}
+
+
 def op_ft(a, dim, zff=1, shift=True, convert=False, inverse=False, ppm=None, out=1, n_in=None):
     n_in = n_in or a["shape"][a["dims"].index(dim)]
     n = max(1, zff) * n_in
